@@ -244,7 +244,7 @@ fn token_alphabet() -> Vec<Token<'static>> {
     for n in [-(1i128 << 64), -(1i128 << 63) - 1, (1i128 << 64) - 1, -1, 0] {
         v.push(Token::Int(Int::try_from(n).unwrap()));
     }
-    for h in [0x0000u16, 0x8000, 0x3c00, 0x0001, 0x7bff, 0x7c00, 0xfc00] {
+    for h in [0x0000u16, 0x8000, 0x3c00, 0x0001, 0x7bff, 0x7c00, 0xfc00, 0x7e00, 0xfe01] {
         v.push(Token::F16(f32::from_bits(f16_to_f32(h))));
     }
     for b in [0u32, 0x3fc0_0000, 0x7f80_0000, 0x7fc0_0001, 0x0000_0001] {
